@@ -303,8 +303,9 @@ class OPDFan(Wavefront):
 
         for i, field in enumerate(self.fields):
             for j, wavelength in enumerate(self.wavelengths):
-                wx = self.data[i][j][0][self.num_rays:]
-                wy = self.data[i][j][0][:self.num_rays]
+                # copies: masking failed rays must not write into the stored data
+                wx = np.copy(self.data[i][j][0][self.num_rays:])
+                wy = np.copy(self.data[i][j][0][:self.num_rays])
 
                 intensity_x = self.data[i][j][1][self.num_rays:]
                 intensity_y = self.data[i][j][1][:self.num_rays]
